@@ -189,6 +189,11 @@ func runHTTP(m map[string]string) (out string) {
 	g := shot.HTTPGunConf{Type: m["gun"], AutoTag: m["auto"] == "1", Elements: atoi(m["el"], 0), NoTagOnly: m["nto"] == "1",
 		RHTimeoutMs: atoi(m["rht"], 0)}
 	inst := atoi(m["inst"], 1)
+	if m["ovf"] != "" {
+		// round 6: the pool runs with `discard_overflow` set explicitly; the target logs which requests it saw
+		hits := r6NoteRequests(reqs)
+		defer func() { out += " hits=" + hits() }()
+	}
 	// one run of the pool; plain: with `dial: {dns-cache: false}` (round 4: the reference run of a `dref=1` case). A named
 	// target (round 4) is set up anew for every run.
 	runOnce := func(plain bool) shot.Result {
@@ -222,6 +227,9 @@ func runHTTP(m map[string]string) (out string) {
 		if m["prov"] == "uripost" {
 			// round 4: the same requests as POSTs with a body (uripost provider): a 307 / 308 is followed WITH the body
 			conf = r4AsURIPost(conf, reqs)
+		}
+		if m["ovf"] != "" {
+			conf = r6Overflow(conf, m, len(reqs))
 		}
 		if d := atoi(m["dto"], 0); d > 0 {
 			conf = strings.Replace(conf, "dial: {timeout: 2s}", fmt.Sprintf("dial: {timeout: %dms}", d), 1)
@@ -1458,6 +1466,8 @@ func gen(r *rand.Rand, tier string) []string {
 	out = append(out, genRound3(r, thorough)...)
 	// 13. fourth round: pooled gRPC ammo objects, id counters far into a run, dial failures through the DNS-caching dialer
 	out = append(out, genRound4(r, thorough)...)
+	// 14. sixth round: between the schedule and the gun — shots the instance discards (round6.go)
+	out = append(out, genRound6(r, thorough)...)
 	return out
 }
 
@@ -1500,6 +1510,15 @@ func class(input, obs string) string {
 		}
 		if m["down"] != "" {
 			c += ":target-goes-away"
+		}
+		if m["ovf"] != "" {
+			c += ":overflow" + m["ovf"]
+			if m["sch"] != "" {
+				c += ":const"
+			}
+			if strings.Contains(obs, hx("discarded")) {
+				c += ":discards"
+			}
 		}
 		if m["inst"] != "" {
 			c += ":multi"
